@@ -76,6 +76,14 @@ def run(prop, tier, seed):
         if i % 2 == 0:
             tid += 1
             jobs.append((ops, 'stdlib', 'Index', seed + i, tid))
+    # histories with transact() blocks (ended or raised, nested), also through OrderedDict with saved copies
+    for i in range(20 if tier == 'quick' else 300):
+        ops = indexdriver.block_ops(rng, length // 2)
+        tid += 1
+        jobs.append((ops, 'diskcache', rng.choice(['Index', 'Index', 'fanout']), seed + 7000 + i, tid))
+        if i % 3 == 0:
+            tid += 1
+            jobs.append((ops, 'stdlib', 'Index', seed + 7000 + i, tid))
     traces = pmap(_seq, jobs, procs=14)
     # concurrency: lookups / replacements / setdefault / popitem on shared keys
     o = lambda name, **a: {'op': name, 'a': a}
